@@ -1202,3 +1202,37 @@ def record_labels(prog: Program, fn: FunctionInfo, eng: str) -> T.List[T.Tuple[a
             if a is not None:
                 out.append((c, unparse(a)))
     return out
+
+
+def printed_texts(fn: FunctionInfo, call: ast.Call) -> T.List[ast.AST]:
+    """The text expressions an echo / log call may print: its argument, or - when the argument is a name - what that name
+    stands for: a local bound once, the element of a list that is filled by a display and `.append(...)` and walked by the
+    `for` loop whose target the name is, or the parts of `sep.join(<that list>)`."""
+    if not call.args:
+        return []
+    arg = call.args[0]
+
+    def list_elements(name: str) -> T.List[ast.AST]:
+        out: T.List[ast.AST] = []
+        for n in walk_no_nested(fn.node):
+            tgt = n.targets[0] if isinstance(n, ast.Assign) and len(n.targets) == 1 else (n.target if isinstance(n, ast.AnnAssign) and n.value is not None else None)
+            if isinstance(tgt, ast.Name) and tgt.id == name and isinstance(n.value, (ast.List, ast.Tuple)):
+                out += list(n.value.elts)
+            if isinstance(n, ast.Call) and isinstance(n.func, ast.Attribute) and n.func.attr in ("append", "insert") and isinstance(n.func.value, ast.Name) and n.func.value.id == name and n.args:
+                out.append(n.args[-1])
+            if isinstance(n, ast.AugAssign) and isinstance(n.target, ast.Name) and n.target.id == name and isinstance(n.value, (ast.List, ast.Tuple)):
+                out += list(n.value.elts)
+        return out
+    if isinstance(arg, ast.Name):
+        loops = [n for n in walk_no_nested(fn.node) if isinstance(n, ast.For) and isinstance(n.target, ast.Name) and n.target.id == arg.id and any(c is call for c in ast.walk(n))]
+        if loops and isinstance(loops[0].iter, ast.Name):
+            return list_elements(loops[0].iter.id)
+        if loops and isinstance(loops[0].iter, (ast.List, ast.Tuple)):
+            return list(loops[0].iter.elts)
+        v = resolve_alias(fn, arg)
+        if isinstance(v, ast.Call) and isinstance(v.func, ast.Attribute) and v.func.attr == "join" and len(v.args) == 1 and isinstance(v.args[0], ast.Name):
+            return list_elements(v.args[0].id)
+        return [v]
+    if isinstance(arg, ast.Call) and isinstance(arg.func, ast.Attribute) and arg.func.attr == "join" and len(arg.args) == 1 and isinstance(arg.args[0], ast.Name):
+        return list_elements(arg.args[0].id)
+    return [arg]
